@@ -17,6 +17,7 @@
    [coherent]: before the resync every computed set stored in a principal document is the one the access
    views produce (that is property C03). *)
 From SG Require Import Base.Prelude C18.Resync C18.SetLemmas C18.ResyncProofs C18.ReplayProofs C18.AccessProofs C18.FinalProofs C18.Concurrent C18.HistoryProofs.
+From SG Require Import C18.Run C18.RunLemmas C18.RunInv C18.RunTheorems C18.RunTheorems2.
 Open Scope N_scope.
 
 (* every live document's channel assignment is the one of the fresh database (and the trees coincide) *)
@@ -175,6 +176,207 @@ Theorem C18_resync_concurrent_write_partial :
   state_ok sync_new fixed d.
 Proof. exact concurrent_write. Qed.
 Print Assumptions C18_resync_concurrent_write_partial.
+
+(* ================================================================================================================
+   The resync RUN as an interruptible process (Run.v).  A state [st : rst body] is the bucket (documents of several
+   collections, the by-CAS index the DCP feed reads), the persisted status / checkpoint documents, the manager's
+   memory, the principals.  [rrun st ops] executes ANY list of steps
+       OWrite w              a document write under the CURRENT function of its collection (concurrent, or between runs)
+       OStart reset regen cs ResyncManager.Start: resumes the stored run id (status stopped / crashed, no reset, same
+                             collections) from the persisted checkpoints and docs_changed, otherwise a new id from CAS 0
+       OVisit c s            the next event of collection c's feed snapshot reaches ResyncDocument
+       OStop / OCrash ck ch  Stop (checkpoints and counter persisted)  /  the process dies (persisted values are any
+                             values not above the in-memory ones; the manager's memory is lost)
+       OFinish pseqs         the feeds are exhausted: invalidatePrincipals, status completed
+       OLoad u               a user is loaded
+   [col_of (d_id d)] is the collection of document d, [syncs c] the current function of collection c, [allcols] the
+   collections of the database.  [BInv col_of st0] is the store invariant of an initial state (C18_run_initial_state:
+   any list of documents with distinct ids; C18_run_store_invariant: preserved by every step, under any functions --
+   in particular by the writes under the OLD functions that build the database).
+   ================================================================================================================ *)
+
+Theorem C18_run_initial_state :
+  forall (body : Type) (col_of : N -> N) (db : list (doc body)) (ps : princs) (pseq : list N),
+  NoDup (map (@d_id body) db) -> BInv col_of (rinit db ps pseq) /\ r_state (rinit db ps pseq) = MNone.
+Proof. intros. split; [apply binv_init; assumption | reflexivity]. Qed.
+Print Assumptions C18_run_initial_state.
+
+Theorem C18_run_store_invariant :
+  forall (body : Type) (empty : body) (col_of : N -> N) (syncs : N -> body -> verdict) (allcols : list N) (fixed : switches)
+         (ops : list (rop body)) (st : rst body),
+  BInv col_of st -> BInv col_of (rrun empty col_of syncs allcols fixed st ops).
+Proof. exact binv_run. Qed.
+Print Assumptions C18_run_store_invariant.
+
+(* (1) after a run that reports completed EVERY live document of the selected collections carries what the current
+   function computes for its current revision (channels, access grants, role grants) -- for every interleaving of
+   document writes, visits, stops, crashes (with any loss of checkpoint / counter) and restarts with any options *)
+Theorem C18_resync_complete_after_success :
+  forall (body : Type) (empty : body) (col_of : N -> N) (syncs : N -> body -> verdict) (allcols : list N) (fixed : switches)
+         (ops : list (rop body)) (st0 : rst body),
+  BInv col_of st0 -> r_state st0 = MNone ->
+  let st := rrun empty col_of syncs allcols fixed st0 ops in
+  r_state st = MCompleted ->
+  forall d, In d (r_docs st) -> In (col_of (d_id d)) (r_cols st) -> state_ok (fn col_of syncs (d_id d)) fixed d.
+Proof. exact complete_after_success. Qed.
+Print Assumptions C18_resync_complete_after_success.
+
+(* (1) stop / crash + resume covers the documents not yet processed, none is skipped: without concurrent writes and
+   without regenerate_sequences, ANY schedule of segments over the collections [cs] that ends completed leaves exactly
+   the database one uninterrupted pass leaves ([fresh_run]: every document of a selected collection replaced by its
+   one-visit result [pass], the others untouched) *)
+Theorem C18_resumed_run_equals_fresh_run :
+  forall (body : Type) (empty : body) (col_of : N -> N) (syncs : N -> body -> verdict) (allcols : list N) (fixed : switches)
+         (cs : list N) (ops : list (rop body)) (st0 : rst body),
+  BInv col_of st0 -> r_state st0 = MNone ->
+  Forall (start_plain body allcols cs) ops ->
+  let st := rrun empty col_of syncs allcols fixed st0 ops in
+  r_state st = MCompleted -> r_docs st = fresh_run body col_of syncs fixed cs (r_docs st0).
+Proof. exact resumed_run_equals_fresh_run. Qed.
+Print Assumptions C18_resumed_run_equals_fresh_run.
+
+(* (1) at EVERY point of every schedule (so in particular after an interrupted run) each document is either in the
+   top-level state (current revision, channels, access, roles) of a document of the initial database -- fully old --
+   or carries exactly the current function's channels AND access AND roles for its current revision -- fully new;
+   never channels from one and grants from the other *)
+Theorem C18_interrupted_run_is_safe :
+  forall (body : Type) (empty : body) (col_of : N -> N) (syncs : N -> body -> verdict) (allcols : list N) (fixed : switches)
+         (ops : list (rop body)) (st0 : rst body) (d : doc body),
+  In d (r_docs (rrun empty col_of syncs allcols fixed st0 ops)) ->
+  (exists d0, In d0 (r_docs st0) /\ d_id d = d_id d0 /\ d_cur d = d_cur d0 /\ d_chans d = d_chans d0 /\
+              d_access d = d_access d0 /\ d_roles d = d_roles d0) \/
+  match d_cur d with
+  | Some (_, b, _) => d_chans d = vchans (fn col_of syncs (d_id d) b) /\ d_access d = vaccess (fn col_of syncs (d_id d) b) /\
+                      d_roles d = rroles fixed (fn col_of syncs (d_id d) b)
+  | None => True
+  end.
+Proof. exact interrupted_run_is_safe. Qed.
+Print Assumptions C18_interrupted_run_is_safe.
+
+(* (2) the documents of a collection that no Start selected (and no write targeted) are exactly those of the initial
+   database, whatever else happened *)
+Theorem C18_only_selected_collections_change :
+  forall (body : Type) (empty : body) (col_of : N -> N) (syncs : N -> body -> verdict) (allcols : list N) (fixed : switches)
+         (ops : list (rop body)) (st0 : rst body) (c : N),
+  BInv col_of st0 ->
+  ~ In c (r_sel (rrun empty col_of syncs allcols fixed st0 ops)) ->
+  (forall w, In (OWrite w) ops -> col_of (w_doc w) <> c) ->
+  filter (fun d => col_of (d_id d) =? c) (r_docs (rrun empty col_of syncs allcols fixed st0 ops)) =
+  filter (fun d => col_of (d_id d) =? c) (r_docs st0).
+Proof. exact only_selected_collections_change. Qed.
+Print Assumptions C18_only_selected_collections_change.
+
+(* (2) every invalidateAllPrincipals call names ALL collections of the database -- a superset of those resynced (the
+   code passes db.CollectionByID, not the selected collections: principals are never under-invalidated) -- and the end
+   of a run invalidates every principal exactly when the run's counter is positive *)
+Theorem C18_invalidation_covers_all_collections :
+  forall (body : Type) (empty : body) (col_of : N -> N) (syncs : N -> body -> verdict) (allcols : list N) (fixed : switches)
+         (ops : list (rop body)) (st0 : rst body),
+  r_log st0 = [] -> Forall (eq allcols) (r_log (rrun empty col_of syncs allcols fixed st0 ops)).
+Proof. exact invalidation_covers_all_collections. Qed.
+Print Assumptions C18_invalidation_covers_all_collections.
+
+Theorem C18_finish_invalidates :
+  forall (body : Type) (allcols : list N) (st : rst body) (pseqs : list N),
+  r_state st = MRunning -> forallb (fun p : N * list event => null (snd p)) (r_queue st) = true ->
+  let st' := do_finish allcols st pseqs in
+  r_state st' = MCompleted /\
+  (0 < r_changed st -> r_ps st' = invalidate_all (r_ps st) /\ r_log st' = r_log st ++ [allcols] /\ r_dirty st' = false) /\
+  (r_changed st = 0 -> r_ps st' = r_ps st /\ r_log st' = r_log st /\ r_dirty st' = r_dirty st).
+Proof. exact finish_invalidates. Qed.
+Print Assumptions C18_finish_invalidates.
+
+(* a run that is only ever stopped and resumed -- never `reset`, never crashed, always the same collection set -- has
+   invalidated all principals after its last resync write when it reports completed ([r_dirty]: a resync write has
+   happened since all principals were last invalidated).  With `reset` / a changed collection set / a crash that
+   loses the counter the statement is FALSE for the code as it is: C18_Refuted.resync_reset_after_interrupted_run_principals_stale *)
+Theorem C18_single_id_run_invalidates :
+  forall (body : Type) (empty : body) (col_of : N -> N) (syncs : N -> body -> verdict) (allcols : list N) (fixed : switches)
+         (cs : list N) (ops : list (rop body)) (st0 : rst body),
+  r_state st0 = MNone -> r_dirty st0 = false -> Forall (gentle body allcols cs) ops ->
+  r_state (rrun empty col_of syncs allcols fixed st0 ops) = MCompleted ->
+  r_dirty (rrun empty col_of syncs allcols fixed st0 ops) = false.
+Proof. exact single_id_run_invalidates. Qed.
+Print Assumptions C18_single_id_run_invalidates.
+
+(* (3) [stale d]: the stored channels / access / roles of d differ (as sets) from what the current function computes for
+   the body of its current revision.  After a completed run, under every schedule with concurrent writes, a stale
+   document of a selected collection is a TOMBSTONE whose top-level state is that of a tombstone of the initial
+   database which was already stale (known finding resync-tombstone-not-revisited) ... *)
+Theorem C18_stale_after_resync_only_untouched_tombstones :
+  forall (body : Type) (empty : body) (col_of : N -> N) (syncs : N -> body -> verdict) (allcols : list N) (fixed : switches)
+         (ops : list (rop body)) (st0 : rst body),
+  BInv col_of st0 -> r_state st0 = MNone ->
+  let st := rrun empty col_of syncs allcols fixed st0 ops in
+  r_state st = MCompleted ->
+  forall d, In d (r_docs st) -> In (col_of (d_id d)) (r_cols st) -> stale body col_of syncs fixed d ->
+  tombstoned d = true /\ exists d0, In d0 (r_docs st0) /\ top_eq body d d0 /\ stale body col_of syncs fixed d0.
+Proof. exact stale_only_untouched_tombstones. Qed.
+Print Assumptions C18_stale_after_resync_only_untouched_tombstones.
+
+(* ... and without concurrent writes this is an equivalence, document by document: after a completed run the stale
+   documents are EXACTLY the tombstones whose (old) stored state differs from the new function's evaluation -- any other
+   stale document is a new violation *)
+Theorem C18_stale_after_resync_iff_tombstone_grant :
+  forall (body : Type) (empty : body) (col_of : N -> N) (syncs : N -> body -> verdict) (allcols : list N) (fixed : switches)
+         (ops : list (rop body)) (st0 : rst body),
+  BInv col_of st0 -> r_state st0 = MNone -> Forall (nowrite body) ops ->
+  let st := rrun empty col_of syncs allcols fixed st0 ops in
+  r_state st = MCompleted ->
+  Forall2 (fun d0 d => In (col_of (d_id d0)) (r_cols st) ->
+                       (stale body col_of syncs fixed d <-> tombstoned d0 = true /\ stale body col_of syncs fixed d0))
+    (r_docs st0) (r_docs st).
+Proof. exact stale_after_resync_iff_tombstone_grant. Qed.
+Print Assumptions C18_stale_after_resync_iff_tombstone_grant.
+
+(* (4) regenerate_sequences across interruptions: every Start regenerating, no concurrent writes, the allocator's
+   contract (C07) on the sequences consumed ([r_alloc]: pairwise distinct, above every sequence [hi0] that existed).
+   After the run has completed: every live document of a selected collection carries a sequence above hi0, recorded in
+   recent_sequences; no two documents share a regenerated sequence; and when the run covered all collections every
+   principal document carries a fresh sequence too, distinct from each other and from every document's *)
+Theorem C18_regen_run_sequences :
+  forall (body : Type) (empty : body) (col_of : N -> N) (syncs : N -> body -> verdict) (allcols : list N) (fixed : switches)
+         (hi0 : N) (ops : list (rop body)) (st0 : rst body),
+  BInv col_of st0 -> r_state st0 = MNone -> r_alloc st0 = [] ->
+  (forall d, In d (r_docs st0) -> d_seq d <= hi0) -> (forall s, In s (r_pseq st0) -> s <= hi0) ->
+  Forall (regen_op body hi0) ops ->
+  let st := rrun empty col_of syncs allcols fixed st0 ops in
+  NoDup (r_alloc st) -> Forall (fun s => hi0 < s) (r_alloc st) ->
+  r_state st = MCompleted ->
+  (forall d, In d (r_docs st) -> In (col_of (d_id d)) (r_cols st) -> live_b d = true -> hi0 < d_seq d /\ In (d_seq d) (d_recent d)) /\
+  (forall d1 d2, In d1 (r_docs st) -> In d2 (r_docs st) -> d_id d1 <> d_id d2 -> hi0 < d_seq d1 -> d_seq d1 <> d_seq d2) /\
+  (r_hasall st = true ->
+     (forall s, In s (r_pseq st) -> hi0 < s) /\ NoDup (r_pseq st) /\
+     (forall d s, In d (r_docs st) -> In s (r_pseq st) -> d_seq d <> s)).
+Proof. exact regen_run_sequences. Qed.
+Print Assumptions C18_regen_run_sequences.
+
+(* non-vacuity of the run theorems: three documents in two collections (one conflicted, one tombstoned), a run over both
+   collections that is stopped after two visits, a write to a visited document while it is stopped, a resumed segment
+   that completes; the hypotheses hold, documents are rewritten in both segments, the principals are invalidated *)
+Definition rv_col (id : N) : N := id / 100.
+Definition rv_old (c : N) (b : N) : verdict := if b =? 0 then Ok [] [] [] else Ok [b] [(PU 1, b)] [(1, 7)].
+Definition rv_new (c : N) (b : N) : verdict := if b =? 0 then Ok [] [] [] else Ok [b + 10 + c] [(PU 1, b + 20); (PR 7, b + 30)] [].
+Definition rv_st0 : rst N :=
+  rrun 0 rv_col rv_old [0; 1] (mkSw true true) (rinit [] (mkPs [mkUser 1 [2] [] (Some [2]) (Some [])] [mkRole 7 [] (Some [])]) [])
+       [OWrite (mkW 1 (1, 9) [] 3 false); OWrite (mkW 1 (1, 1) [] 4 false); OWrite (mkW 101 (1, 1) [] 5 false);
+        OWrite (mkW 2 (1, 1) [] 6 false); OWrite (mkW 2 (2, 1) [(1, 1)] 0 true)].
+Definition rv_ops : list (rop N) :=
+  [OStart false false []; OVisit 0 0; OVisit 1 0; OStop; OWrite (mkW 1 (2, 1) [(1, 9)] 8 false);
+   OStart false false []; OVisit 0 0; OVisit 0 0; OVisit 1 0; OFinish []].
+Definition rv_st : rst N := rrun 0 rv_col rv_new [0; 1] (mkSw true true) rv_st0 rv_ops.
+
+Example C18_run_nonvacuous :
+  BInv rv_col rv_st0 /\ r_state rv_st0 = MNone /\ r_state rv_st = MCompleted /\ r_cols rv_st = [0; 1] /\
+  r_pchanged rv_st = 2 /\ r_log rv_st = [[0; 1]] /\ r_dirty rv_st = false /\
+  map (fun d => (d_id d, d_chans d, tombstoned d)) (r_docs rv_st) = [(1, [18], false); (101, [16], false); (2, [], true)] /\
+  Forall (gentle N [0; 1] [0; 1]) rv_ops.
+Proof.
+  split; [apply (binv_run N 0 rv_col rv_old [0; 1] (mkSw true true)); apply binv_init; constructor|].
+  split; [reflexivity|]. split; [vm_compute; reflexivity|]. split; [vm_compute; reflexivity|].
+  split; [vm_compute; reflexivity|]. split; [vm_compute; reflexivity|]. split; [vm_compute; reflexivity|].
+  split; [vm_compute; reflexivity|]. repeat constructor.
+Qed.
 
 (* non-vacuity: a concrete corpus (conflict, grant, tombstone), a pair of functions and principals that
    meet every hypothesis above, and on which the resync really rewrites documents *)
